@@ -116,6 +116,32 @@ NEST_PROBE = "{{lc:Z}}"
 # leaf "own position number" is not generated for #ifexist (VERIF_C03_IFEXIST_EMPTY=1 generates it).
 IFEXIST_EMPTY = os.environ.get("VERIF_C03_IFEXIST_EMPTY", "1") == "1"
 
+# HTML-ISH FRAGMENTS (Gen.markup_family): `<TAG ATTR="` + a LONG run (blanks, newlines, mixed white space, words separated by one /
+# two blanks or newlines; 10..2000 items) + a tail (a last word and the closing quote and bracket, the quote closed at once, no
+# closing quote, end of text, a last word `error`), i.e. long runs INSIDE attribute values, as an argument of EVERY registered name
+# at EVERY argument position.  Functions that inspect their arguments with regular expressions (#iferror looks for
+# <div|span|p|strong ... class="error">) must do so in time proportional to the argument.  GROUP TESTING: one screening page per
+# (fragment shape, argument position, size, third of the names) holds one call per name; only when a screening page misbehaves
+# (no string / CPU or size out of proportion / exception) is every call of that page run alone, and the single call is reported.
+MK_TAGS = ["span", "div", "p", "strong", "b"]
+# tags the template SCANNER treats specially (scanner.SPLIT_PATTERN protects <ref ../>, <pre ..>..</pre>, <gallery ..>, <source ..>,
+# <imagemap ..>, <nowiki>, <math>): what the scanner does with them does not depend on the function called, so these are tried with
+# one third of the names and at argument position 0 only
+MK_SCANNER_TAGS = ["ref", "pre", "gallery", "source", "imagemap", "nowiki"]
+MK_ATTRS = [("class", ' class="'), ("style", ' style="'), ("title-sq", " title='"), ("bare", " ")]
+MK_RUNS = [("blanks", " ", 1), ("newlines", "\n", 1), ("mixed-ws", " \t\n", 3), ("words", "w ", 1), ("words2", "w  ", 1)]
+MK_RUNS_THOROUGH = [("lines", "w\n", 1), ("tabs", "\t", 1), ("error-words", "errors ", 1), ("attr-words", 'a="v" ', 1)]
+MK_TAILS = [("word-closed", 'notice%s>text</%s>'), ("closed", '%s>text</%s>'), ("no-quote", "notice>text</%s>"), ("eof", "notice"),
+            ("error-closed", 'error%s>text</%s>')]
+# sizes: (size, every how many-th shape): the exponential class shows at 20..30 items, long runs are for polynomial growth
+MK_SIZES = {"quick": [(14, 1), (26, 1), (300, 2), (2000, 11)],
+            "thorough": [(10, 1), (14, 1), (18, 1), (22, 1), (26, 1), (30, 1), (40, 1), (100, 1), (500, 3), (2000, 7)]}
+MK_CHUNKS = 3
+MK_CPU_LIMIT = 2.0
+MK_RANK1 = 16
+MK_RANK2 = 30
+MK_REFINE_CAP = 6         # screening pages refined per (argument form, chunk): the smallest failing ones
+
 _CALL_OPEN = re.compile(r"(?<!\{)\{\{(?!\{)")       # the opening braces of a call (not of a {{{parameter}}})
 
 DB_DEFAULT = {"t": "{{{1}}}"}
@@ -126,9 +152,28 @@ def rle(parts):
     return "".join(s * n for s, n in parts)
 
 
+MK_STATE = {"chunks": []}      # the name chunks of the markup family's screening pages (set by Gen.markup_family)
+
+
+def screen_parts(c):
+    """run-length encoded text of a screening page of the markup family (built on demand: a page holds one call per name)"""
+    parts = []
+    for name, _canon, _kind in MK_STATE["chunks"][c["mk"]["chunk"]]:
+        parts += mk_call_parts(name, c["mk"])
+    return parts
+
+
+def rle_of(c):
+    if "text_rle" in c:
+        return c["text_rle"]
+    if c.get("family") == "mk-screen" and "mk" in c:
+        return screen_parts(c)
+    return None
+
+
 def materialize(c):
     """replay/call object -> (text, db) with run-length encoded parts expanded"""
-    text = c["text"] if "text" in c else rle(c["text_rle"])
+    text = c["text"] if "text" in c else rle(rle_of(c))
     db = {}
     for k, v in (c.get("db") or {}).items():
         db[k] = v if isinstance(v, str) else rle(v)
@@ -216,6 +261,28 @@ def universe(src, dyn=None):
 
 
 # ----------------------------------------------------------------------------- call generation
+
+def mk_call_parts(name, spec):
+    """run-length encoded text of ONE call of `name` carrying the fragment of `spec` (Gen.markup_family)"""
+    head, tail = {"a0": ("{{%s:", "}}"), "a1": ("{{%s:x|", "}}"), "a2": ("{{%s:x|y|", "}}"), "a1-numbered": ("{{%s:x|1=", "}}"),
+                  "pipe0": ("{{%s|", "}}"), "nested0": ("{{%s:{{#if:1|", "}}}}")}[spec["form"]]
+    return [[(head % name) + spec["pre"], 1], [spec["unit"], spec["reps"]], [spec["post"] + tail + "\n", 1]]
+
+
+def mk_single_calls(g_calls, screen, chunks):
+    """the calls of one screening page, each alone (same fragment, same argument form): -> list of call objects"""
+    spec = screen["mk"]
+    out = []
+    nid = max(c["id"] for c in g_calls) + 1
+    for name, canon, kind in chunks[spec["chunk"]]:
+        c = {"id": nid, "lang": screen["lang"], "db": DB_DEFAULT, "pagename": screen["pagename"], "canon": canon, "fkind": kind,
+             "arity": {"a0": 1, "a1": 2, "a2": 3, "a1-numbered": 2, "pipe0": 1, "nested0": 1}[spec["form"]],
+             "shapes": ["mk-" + spec["run"]], "form": "mk-" + spec["form"], "text_rle": mk_call_parts(name, spec),
+             "cpu_limit": MK_CPU_LIMIT, "family": "mk", "screen": screen["id"]}
+        nid += 1
+        out.append(c)
+    return out
+
 
 def call_text(name, args, pipe=False):
     if args is None:
@@ -456,6 +523,41 @@ class Gen:
                                     self.add(text, canon, kind, -4, ("nest-" + sname, "leaf-" + lname), db=db,
                                              form="nest-%s%s@%d%s" % (form, "-pipe" if pipe else "", p, "" if wrap == "%s" else "-named"),
                                              budget=NEST_SLACK * max(1, ncalls) + 4, cpu_limit=NEST_CPU_LIMIT, family="nest")
+
+    def markup_family(self, builtins):
+        """see MK_TAGS: fragment `<TAG ATTR="RUN TAIL` at argument position 0 / 1 / 2 (thorough: also as `1=..`, in the pipe form
+        and produced by a nested {{#if:1|..}}) of every name; screening pages of len(names)/MK_CHUNKS calls each"""
+        thorough = self.tier != "quick"
+        sizes = MK_SIZES["thorough" if thorough else "quick"]
+        runs = MK_RUNS + (MK_RUNS_THOROUGH if thorough else [])
+        forms = ["a0", "a1", "a2"] + (["a1-numbered", "pipe0", "nested0"] if thorough else [])
+        chunks = [builtins[i::MK_CHUNKS] for i in range(MK_CHUNKS)]
+        self.mk_chunks = chunks
+        MK_STATE["chunks"] = chunks
+        gi = -1
+        for ti, tag in enumerate(MK_TAGS + MK_SCANNER_TAGS):
+            restricted = tag in MK_SCANNER_TAGS
+            for ai, (aname, attr) in enumerate(MK_ATTRS):
+                quote = '"' if attr.endswith('"') else "'" if attr.endswith("'") else ""
+                for ri, (rname, unit, per) in enumerate(runs):
+                    for xi, (tname, tail) in enumerate(MK_TAILS):
+                        n_pct = tail.count("%s")
+                        tl = tail % ((quote, tag) if n_pct == 2 else (tag,) if n_pct == 1 else ())
+                        for fi, form in enumerate(forms[:1] if restricted else forms):
+                            for ci in range(1 if restricted else len(chunks)):
+                                idx = ti + ai + ri + xi + fi + ci
+                                if not thorough and not restricted and idx % 2:
+                                    continue
+                                gi += 1
+                                for k in [k for k, every in sizes if gi % every == 0]:
+                                    spec = {"pre": "<" + tag + attr, "unit": unit, "reps": max(1, k // per), "post": tl, "form": form,
+                                            "chunk": ci, "shape": "%s/%s/%s/%s" % (tag, aname, rname, tname), "run": rname, "k": k}
+                                    # (the page text is built from `mk` on demand, screen_parts: 100 000 pages in the thorough tier)
+                                    self.calls.append({"id": len(self.calls), "lang": "en", "db": DB_DEFAULT, "pagename": PAGENAME,
+                                                       "canon": "MARKUP-SCREEN", "fkind": "screen", "arity": -5, "shapes": ["mk-" + rname],
+                                                       "form": "mk-screen-" + form, "cpu_limit": MK_CPU_LIMIT, "family": "mk-screen",
+                                                       "group": "mk/%s/%s/%d" % (spec["shape"], form, ci),
+                                                       "rank": 0 if k <= MK_RANK1 else 1 if k <= MK_RANK2 else 2, "mk": spec})
 
     def alias(self, a, budget):
         rng = self.rng
@@ -709,6 +811,7 @@ def generate(rng, tier, src, dyn=None):
     for name, canon, kind in builtins:
         g.nest_family(name, canon, kind)
     g.pp_tag_family()
+    g.markup_family(builtins)
     g.expr_family()
     g.expr_chain_family()
     g.time_family()
@@ -721,6 +824,7 @@ def generate(rng, tier, src, dyn=None):
     n_un = 200 if not thorough else 3000
     for a in rng.sample(unimpl, min(n_un, len(unimpl))):
         g.alias(a, 3)
+    generate.mk_chunks = g.mk_chunks
     return info, builtins, impl, unimpl, langs, g.calls, g.alias_called
 
 
@@ -731,7 +835,11 @@ def _payload(c):
     for k in ("limit", "budget", "cpu_limit"):
         if k in c:
             o[k] = c[k]
-    o["text"], o["db"] = materialize(c)
+    if c.get("family") in ("mk", "mk-screen") and rle_of(c) is not None:
+        o["text_rle"] = rle_of(c)                # expanded by the worker (a screening page of 2000-item runs is 70 KB)
+        o["db"] = c["db"]
+    else:
+        o["text"], o["db"] = materialize(c)
     return json.dumps(o)
 
 
@@ -918,15 +1026,15 @@ def replay_obj(c, fp):
     for k in ("limit", "budget", "cpu_limit", "family"):
         if k in c:
             o[k] = c[k]
-    if "text_rle" in c:
-        o["text_rle"] = c["text_rle"]
+    if rle_of(c) is not None:
+        o["text_rle"] = rle_of(c)
     else:
         o["text"] = c["text"]
     return o
 
 
 def short(c):
-    t = c["text"] if "text" in c else "".join(("%s*%d " % (json.dumps(s), k)) if k > 1 else s for s, k in c["text_rle"])
+    t = c["text"] if "text" in c else "".join(("%s*%d " % (json.dumps(s), k)) if k > 1 else s for s, k in rle_of(c))
     return t if len(t) <= 160 else t[:100] + "...(%d chars)..." % len(t) + t[-30:]
 
 
@@ -976,6 +1084,48 @@ def run(run, src):
                 if classify(c, r, input_size(text, db)) is not None:
                     failed_groups.add(c["group"])
     calls = [c for c in calls if c["id"] not in skipped]
+    # group testing of the markup family: every screening page that misbehaved is taken apart into its single calls
+    bad_screens = {}
+    for c in calls:
+        r = results.get(c["id"])
+        if c.get("family") == "mk-screen" and r is not None:
+            text, db = materialize(c)
+            if r["outcome"] != "ok" or classify(c, r, input_size(text, db)) is not None:
+                bad_screens.setdefault((c["mk"]["form"], c["mk"]["chunk"]), []).append(c)
+    n_refined = 0
+    for key in sorted(bad_screens):
+        hit_tags, n_key = set(), 0
+        for sc in sorted(bad_screens[key], key=lambda c: (c["mk"]["k"], c["id"])):
+            tag = sc["mk"]["shape"].split("/")[0]
+            if tag in hit_tags or n_key >= MK_REFINE_CAP:
+                continue          # a smaller page with the same tag has already been traced to single calls
+            n_key += 1
+            # the single calls at the size of the page; when each of them alone is still within its limits (34 calls that are each
+            # 100 x too slow make the page fail first), at growing sizes: +6, +12 items (exponential growth), x4, x16 (polynomial)
+            n_refined += 1
+            k0 = sc["mk"]["k"]
+            for k in [k0, k0 + 6, k0 + 12, 4 * k0, min(16 * k0, 8000)]:
+                sck = dict(sc)
+                sck["mk"] = dict(sc["mk"], k=k, reps=max(1, k * sc["mk"]["reps"] // max(1, k0)))
+                singles = mk_single_calls(calls, sck, generate.mk_chunks)
+                res, errs = run_calls(singles, src, nproc, timeout=1500)
+                errors += errs
+                results.update(res)
+                calls += singles
+                for c1 in singles:
+                    r1 = res.get(c1["id"])
+                    if r1 is not None:
+                        t1, d1 = materialize(c1)
+                        if classify(c1, r1, input_size(t1, d1)) is not None:
+                            sc["refined_hit"] = True
+                if sc.get("refined_hit"):
+                    hit_tags.add(tag)
+                    break
+        if any(sc.get("refined_hit") for sc in bad_screens[key]):
+            # the pages of the same argument form and the same names beyond the cap are attributed to the single calls found
+            # (a second root cause hiding behind them shows up once the first is repaired)
+            for sc in bad_screens[key]:
+                sc["refined_hit"] = True
     unanswered = [c for c in calls if c["id"] not in results]
     run.obligation("C03 search: every generated call was answered by a worker", not unanswered,
                    "%d calls" % len(calls) if not unanswered else "%d unanswered, e.g. %s; %s" % (len(unanswered), short(unanswered[0]), errors[:2]))
@@ -998,6 +1148,8 @@ def run(run, src):
         text, db = materialize(c)
         n = input_size(text, db)
         v = classify(c, r, n)
+        if c.get("refined_hit"):
+            v = None          # reported through the single call(s) of this screening page
         if v is not None and v[0].startswith("time:") and r["outcome"] == "ok":
             suspects.append((c, r, n))
             continue
@@ -1043,6 +1195,8 @@ def run(run, src):
     distribution = {
         "search_calls": len(calls),
         "search_calls_skipped_because_a_smaller_input_of_the_same_shape_failed": len(skipped),
+        "markup_screening_pages": sum(1 for c in calls if c.get("family") == "mk-screen"),
+        "markup_screening_pages_taken_apart": n_refined,
         "search_arity": {str(k): v for k, v in sorted(dist["arity"].items(), key=lambda kv: str(kv[0]))},
         "search_shapes": top(dist["shape"]),
         "search_outcomes": top(dist["outcome"]),
@@ -1087,7 +1241,13 @@ def run(run, src):
                  "<noinclude / </noinclude / <NOINCLUDE (same for includeonly, onlyinclude) followed by runs of %s words (one blank, two "
                  "blanks, newlines between them), attribute-like words, blanks, newlines, mixed white space, the tag repeated, and then the end of the text / "
                  "a line with more markup / a lone slash / > / /> / >doc</tag>, as the page and as an included template, under a %.0f s CPU cap "
-                 "(longer runs of a shape only after the shorter ones passed); "
+                 "(longer runs of a shape only after the shorter ones passed); HTML-ISH FRAGMENTS: `<TAG ATTR=\"RUN TAIL` with TAG in "
+                 "span div p strong b (and, at position 0 with a third of the names, the tags the scanner protects: ref pre gallery source "
+                 "imagemap nowiki), ATTR in class= style= title=' or none, RUN = %s blanks / newlines / mixed white space / words separated "
+                 "by one or two blanks%s INSIDE the attribute value, TAIL = last word + closing quote and bracket / closed at once / no "
+                 "quote / end of text / last word `error`, as argument 0, 1, 2%s of EVERY built-in name: screening pages of a third of the "
+                 "names each (one call per name), and every screening page that does not come back as a string within the CPU and size "
+                 "limits is taken apart into its single calls, which are what is reported (group testing; %d screening pages); "
                  "#time formats x dates, random #expr token strings, the corpus and %d directed probes "
                  "(regressions of the fixed defects, 300 KB names/arguments, deep nesting). Of several failing inputs with one fingerprint the "
                  "smallest (input size, then recursion limit) is reported. "
@@ -1095,6 +1255,10 @@ def run(run, src):
                  % (len(ALL_VALUES), "64 sampled shape triples per name" if tier == "quick" else "all 729 shape triples per name",
                     len(NUMERIC_VALUES), REC_SLACK, "/".join(map(str, NEST_DEPTHS["quick" if tier == "quick" else "thorough"])), NEST_SLACK,
                     "/".join(map(str, PP_SIZES["quick" if tier == "quick" else "thorough"])), PP_CPU_LIMIT,
+                    "/".join(str(k) for k, _e in MK_SIZES["quick" if tier == "quick" else "thorough"]),
+                    "" if tier == "quick" else " or newlines, tabs, words beginning with `error`, attribute-like words",
+                    "" if tier == "quick" else " (also as 1=.., in the pipe form and produced by a nested #if)",
+                    sum(1 for c in calls if c.get("family") == "mk-screen"),
                     sum(1 for c in calls if c["form"] == "directed"))),
         "trusted": ["search oracle limits: CPU <= %.1fs + %.0e s/char, output <= %d + %d chars/char of input (calibrated on the unchanged tree)"
                     % (CPU_BASE, CPU_PER_CHAR, OUT_BASE, OUT_PER_CHAR),
@@ -1115,8 +1279,8 @@ def run(run, src):
 
 def _account(run, c, r, n, verdict, dist, covered, hits=None):
     nontrivial = c["fkind"] != "unimpl"
-    run.count((c["lang"], c.get("text") or json.dumps(c.get("text_rle")), c["pagename"], len(c["db"])), nontrivial=nontrivial)
-    dist["arity"][c["arity"] if c["arity"] >= 0 else {-2: "recursion", -3: "preprocessor-tags", -4: "self-nesting"}.get(c["arity"], "directed")] += 1
+    run.count((c["lang"], c.get("text") or json.dumps(c.get("text_rle") or c.get("mk")), c["pagename"], len(c["db"])), nontrivial=nontrivial)
+    dist["arity"][c["arity"] if c["arity"] >= 0 else {-2: "recursion", -3: "preprocessor-tags", -4: "self-nesting", -5: "markup-screening-page"}.get(c["arity"], "directed")] += 1
     for s in c["shapes"]:
         dist["shape"][s] += 1
     dist["kind"][c["fkind"]] += 1
